@@ -206,8 +206,18 @@ fn wild_ty(s: &mut Src, depth: usize) -> String {
             11 => "object".into(),
             12 => "this".into(),
             13 => "unique symbol".into(),
-            14 => s.pick(&["\"a\"", "'b'", "1", "-1", "1.5", "1e21", "0x10", "true", "false", "10n", "`t`", "\"a-b\"", "\"\""]).to_string(),
-            15 => format!("`x${{{}}}y`", s.pick(&["string", "number", "boolean", "A", "\"a\"|\"b\"", "bigint", "null", "{a:1}"])),
+            14 => s.pick(&["\"a\"", "'b'", "1", "-1", "1.5", "1e21", "0x10", "true", "false", "10n", "`t`", "\"a-b\"", "\"\"", "\"/\"", "\"\\\\\"", "\"\\n\"", "\"'\"", "'\"'", "\"</script>\"", "\"\\u2028\"", "`\\``"]).to_string(),
+            15 => {
+                // literal chunks carry every character that is special in a regular expression, a JS string or a
+                // regex literal: the emitted validator is a regex literal built from them
+                const CHUNKS: [&str; 28] = [
+                    "x", "y", "", "/", "a/b", "\\\\", "\\`", "'", "\"", "$", "{", "}", "(", ")", "[", "]", "|", "*", "+", "?", ".", "^", "\\n", "\\u{1F600}", "é", "</script>", "\\${", "-",
+                ];
+                let a = *s.pick(&CHUNKS);
+                let b = *s.pick(&CHUNKS);
+                let hole = *s.pick(&["string", "number", "boolean", "A", "\"a\"|\"b\"", "bigint", "null", "{a:1}", "\"/\" | \"|\""]);
+                format!("`{}${{{}}}{}`", a, hole, b)
+            }
             16 => s.pick(&NAMES).to_string(),
             17 => format!("typeof {}", s.pick(&VALS)),
             18 => format!("typeof {}.{}", s.pick(&VALS), s.pick(&["k", "a", "length", "M", "x"])),
